@@ -219,8 +219,15 @@ func init() {
 			// gen is the default exactly when there is no first argument or it is not a command name
 			for _, cl := range fi.callsTo("os.Exit") {
 				gs := fi.Guards(cl)
-				if len(gs) == 0 || gs[0].Neg {
-					continue // the subcommand path: what remains after the default
+				// the default-gen exit sits inside the if; the subcommand exit is what remains after it
+				inIf := false
+				for _, g := range gs {
+					if is, ok := g.At.(*ast.IfStmt); ok && fi.within(cl, is.Body) {
+						inIf = true
+					}
+				}
+				if !inIf {
+					continue
 				}
 				okG := false
 				if len(gs) == 1 && !gs[0].Neg {
